@@ -26,6 +26,8 @@ Tie (DESIGN 3/C05):
 import copy
 import dill as pickle   # the sampler ships helpers to workers with dill (multiprocess)
 
+import os
+
 import numpy as np
 
 NEEDS_KERNEL = True
@@ -41,6 +43,7 @@ def plan(ctx):
     cases += [("history", i) for i in range(60 if t else 9)]
     cases += [("paths", i) for i in range(40 if t else 6)]
     cases += [("mpool", i) for i in range(10 if t else 2)]
+    cases += [("rewrite", i) for i in range(12 if t else 4)]
     return cases
 
 
@@ -620,12 +623,69 @@ def mpool_case(ctx, g):
                           tags=dict(entry="rejection", pool="multi", relation="accepted-set"))
 
 
+def rewrite_case(ctx, g):
+    """History over ONE cache-file name whose content changes between calls: the user re-writes the same file with
+    the same physical rows in other (valid) units, or with other rows.  Every call must return the values a fresh
+    process-state-free evaluation gives for the file's *current* content (reference: the same content under a
+    never-used file name, same route, so the comparison is bit for bit)."""
+    import astropy.units as u
+    import histlib as hl
+    import thejoker as tj
+    rng = ctx.case_rng("rewrite", g["index"])
+    pr = hl.small_problem(rng)
+    N = int(rng.integers(12, 30))
+    libA, phys, _ = hl.library(rng, pr, N, internal_units=True)
+
+    def reexpressed(lib):
+        out = tj.JokerSamples(poly_trend=pr.p, n_offsets=pr.q)
+        cu = dict(P=u.Unit(str(rng.choice(["yr", "hour", "day"]))), omega=u.Unit(str(rng.choice(["deg", "rad"]))),
+                  M0=u.Unit(str(rng.choice(["deg", "rad"]))), s=u.Unit(str(rng.choice(["m/s", "km/s", "cm/s"]))))
+        if cu["P"] == u.day and cu["omega"] == u.rad:
+            cu["P"] = u.yr
+        for nm in lib.par_names:
+            out[nm] = lib[nm].to(cu[nm]) if nm in cu else lib[nm]
+        return out, {k: str(v) for k, v in cu.items()}
+
+    variants = [("canonical", libA, None)]
+    libB, unitsB = reexpressed(libA)
+    variants.append(("re-expressed", libB, unitsB))
+    libC, _, _ = hl.library(rng, pr, N, internal_units=True)      # other rows, same units
+    variants.append(("other-rows", libC, None))
+    libD, unitsD = reexpressed(libC)
+    variants.append(("other-rows re-expressed", libD, unitsD))
+    order = [0, 1, 0, 2, 3, 1][: (6 if ctx.thorough else 4)]
+    rel = "a cache file re-written under the same name is read as its current content, whatever was read from that name before"
+    with hl.Scratch("c05rw") as sc:
+        j = pr.joker(rng=np.random.default_rng(hl.seed_of(rng)))
+        same = os.path.join(sc.userdir, "library.hdf5")
+        for step, vi in enumerate(order):
+            name, lib, units = variants[vi]
+            lib.write(same, overwrite=True)
+            nb = int(rng.integers(1, 4))
+            got = np.asarray(j.marginal_ln_likelihood(pr.data, same, n_batches=nb))
+            fresh_name = os.path.join(sc.userdir, f"fresh_{step}.hdf5")
+            lib.write(fresh_name, overwrite=True)
+            want = np.asarray(pr.joker(rng=np.random.default_rng(0)).marginal_ln_likelihood(pr.data, fresh_name))
+            ctx.evaluated(rel, ("rewrite", g["index"], step) if step > 0 and distinct(want) else None,
+                          sample=dict(step=step, content=name, units=units, got=got[:3], want=want[:3]) if step == 1 else None)
+            ctx.count("rewrite:steps")
+            if units is not None and step > 0:
+                ctx.count("rewrite:unit-change")
+            if not same_bits(got, want):
+                ctx.violation(rel, g, dict(step=step, order=[variants[k][0] for k in order[: step + 1]], units=units, N=N, n_batches=nb,
+                                           problem=dict(p=pr.p, q=pr.q, K=pr.desc["K"]["kind"])),
+                              dict(lls=got[:8]), dict(lls=want[:8]),
+                              "marginal ln-likelihood through a cache file must not depend on what was read from the same file "
+                              "name earlier (call history)", tags=dict(relation="rewrite", content=name))
+                return
+
+
 def run_case(ctx, g):
     import time
     t0 = time.time()
     ctx.seed = g.get("seed", ctx.seed)
     try:
-        dict(readset=readset_case, history=history_case, paths=paths_case, mpool=mpool_case)[g["kind"]](ctx, g)
+        dict(readset=readset_case, history=history_case, paths=paths_case, mpool=mpool_case, rewrite=rewrite_case)[g["kind"]](ctx, g)
     finally:
         w = ctx.extra.setdefault("wall_by_kind", {})
         w[g["kind"]] = round(w.get(g["kind"], 0) + time.time() - t0, 2)
@@ -658,5 +718,6 @@ def post(ctx):
     ctx.require("accepted-set comparisons with 0 < accepted < evaluated", c["paths:nontrivial"], 12)
     ctx.require("in-memory vs cache accepted-set comparisons", c["paths:rejection:mem"] + c["paths:iterative:mem"], 2)
     ctx.require("iterative cases needing >= 2 rounds", c["paths:iterative-multi-round"], 2)
+    ctx.require("same-name cache file re-written in other units between calls", c["rewrite:unit-change"], 4)
     ctx.require("multi-process marginal calls", c["mpool:marginal-calls"], 6)
     ctx.require("multi-process accepted-set comparisons", c["mpool:accepted-set-comparisons"], 2)
